@@ -190,6 +190,31 @@ def directional_jobs(cases, planners, n_cases, rng):
     return jobs
 
 
+def island_jobs(cases, planners, n_cases, rng):
+    """Goals nobody can reach, several start / goal states: maps whose free space falls into separate components with
+    the goal cell in another component than the start, queried with a GoalStates goal or several starts (the extra
+    ones land in random cells, hence in different components).  No exact solution exists; planners that report
+    approximate solutions must put together, from several start / goal PAIRS, one path whose flag, difference and
+    last state still agree - the per-pair bookkeeping of roadmap planners is only exercised here."""
+    F_APPROX = 32
+    pool = [c for c in cases if c["startFree"] and c["goalFree"] and not c["reachable"] and not c["same"] and len(c["obst"]) <= 5]
+    jobs = []
+    for c in rng.sample(pool, min(n_cases, len(pool))):
+        runs = []
+        for p in planners:
+            if not p["flags"] & F_APPROX:
+                continue
+            for q in ("goalstates", "multistart"):
+                runs.append({"planner": p["name"], "space": rng.choice(["R2", "R2", "SE2", "R3"]), "thr": rng.choice(["tiny", "cell"]),
+                             "range": rng.choice(["default", "default", "tiny"]),
+                             "budget": rng.choice([3000, 6000]) if p["flags"] & (F_MT | F_SLOW) else rng.choice([400, 1500]),
+                             "seed": rng.randrange(1, 1 << 30), "res": 0.01, "query": q, "params": pick_params(p, rng, prob=0.7)})
+        rng.shuffle(runs)
+        for i in range(0, len(runs), 8):
+            jobs.append({"case": c, "runs": runs[i:i + 8]})
+    return jobs
+
+
 def judge(ck, trace, label):
     rows = vlib.read_ndjson(trace)
     bad = []
@@ -240,13 +265,14 @@ def run(tier):
     if tier == "quick":
         jobs, chosen = make_jobs(cases3, planners, 36, 1, rng)
         jobs += directional_jobs(cases3, planners, 8, rng)
+        jobs += island_jobs(cases3, planners, 8, rng)
     else:
         cases4 = enum_cases(ck, 4, 4, 3, "world4x4")
         ck.set("configurations_4x4_up_to_symmetry", len(cases4))
         # (sized for about an hour on 16 cores: every run is its own process and parameters are swept)
         j3, c3 = make_jobs(cases3, planners, 250, 1, rng)
         j4, c4 = make_jobs(cases4, planners, 40, 2, rng)
-        jobs, chosen = j3 + j4 + directional_jobs(cases3, planners, 30, rng), c3 + c4
+        jobs, chosen = j3 + j4 + directional_jobs(cases3, planners, 30, rng) + island_jobs(cases3 + cases4, planners, 40, rng), c3 + c4
     jpath = os.path.join(WORK, "c01-jobs.ndjson")
     vlib.write_ndjson(jpath, jobs)
     trace, total, notes = planrun.run_sharded(binary, "c01", jpath, os.path.join(WORK, "c01-trace"))
